@@ -517,6 +517,15 @@ func runAll(cases []*Case) {
 					rw := startProcEnv(raceWorkerPath, []string{"GORACE=halt_on_error=1 log_path=" + logBase}, "worker")
 					ans, ok := rw.ask(i, c.Kind+"\t"+strings.Join(fields, "\t"), 120*time.Second)
 					rw.kill()
+					if !ok && strings.HasPrefix(ans, "HANG") && readRaceLog(logBase) == "" && atomic.LoadInt64(&confirmedHangs) < 3 {
+						// a race-enabled workload that is slow on a loaded machine is not a hang: once more, with a long limit
+						rw = startProcEnv(raceWorkerPath, []string{"GORACE=halt_on_error=1 log_path=" + logBase}, "worker")
+						ans, ok = rw.ask(i, c.Kind+"\t"+strings.Join(fields, "\t"), 30*time.Minute)
+						rw.kill()
+						if !ok {
+							atomic.AddInt64(&confirmedHangs, 1)
+						}
+					}
 					if !ok {
 						if rep := readRaceLog(logBase); rep != "" {
 							ans = "CRASH DATA RACE " + rep
@@ -540,7 +549,11 @@ func runAll(cases []*Case) {
 					// such waits per run, further silent cases keep the short limit)
 					w.kill()
 					w = startProc(self, "worker")
-					ans, ok = w.ask(i, req, 90*time.Second)
+					long := 90 * time.Second
+					if 5*to > long {
+						long = 5 * to
+					}
+					ans, ok = w.ask(i, req, long)
 					if !ok {
 						atomic.AddInt64(&confirmedHangs, 1)
 					}
